@@ -115,7 +115,9 @@ let process line =
     lap "f64_build";
     let built_panic = List.mem "BUILDPANIC" otoks in
     (match model, built_panic with
-     | Ok _, true -> df "build: implementation panicked, model did not"
+     | Ok _, true ->
+         df "build: implementation panicked, model did not";
+         if in_scope then pf "build-panic (implementation only; matrix inside the property's domain)"
      | (Panic s), false -> df (Printf.sprintf "build: model panics at site %d, implementation did not" (int_of_nat s))
      | (Err _ | OutOfFuel), _ -> df "build: model error"
      | Panic s, true ->
